@@ -6,7 +6,7 @@ package phantoms
 //   select     rapid-generated configurations x queries (all library versions, both station and
 //              client entry points): no panic, well-formed address of the requested family inside a
 //              configured subnet of that generation, port randomisation only where allowed, equal to
-//              the independent reference for library version >= 2, unchanged when repeated.
+//              the independent reference for library versions 2-4, unchanged when repeated.
 //   degenerate exhaustive enumeration of degenerate configuration shapes x library version x family
 //              x entry point x seed shape (same oracle).
 //   offsets    exhaustive: every (group, subnet, offset) of enumerated small-subnet configurations
@@ -47,7 +47,7 @@ func c14Replay(t *testing.T, rec *vh.Rec, env *c14Env) bool {
 }
 
 const c14Rule = "one evaluation = one selection (configuration, entry point, seed, generation, library version, family) run twice; " +
-	"non-trivial = the selection returned an address (so containment, family, length, port flag and, for library version >= 2, equality with the reference were all decided on it); " +
+	"non-trivial = the selection returned an address (so containment, family, length, port flag and, for library versions 2-4 and the client entry points, equality with the reference were all decided on it); " +
 	"distinct = distinct (configuration, query)"
 
 func TestVerif_C14_select(t *testing.T) {
